@@ -33,8 +33,8 @@ class Interp:
 
     # ---- helpers
     def find(self, sec, name):
-        if '|' in name or '=' in name:
-            raise Unspec('path-like name')
+        if ('|' in name or '=' in name) and not sec.keystrval:
+            raise Unspec('path-like name')      # (inside a free-form key=value section a key is whatever the text says)
         for o in sec.opts:
             if o.d.name == name or (self.nocase and o.d.name.lower() == name.lower()):
                 return o
